@@ -142,6 +142,8 @@ class Descriptor:
         chain = [shot.guid]
         while shot.parent != NULL_GUID:
             shot = self.snapshots.find_shot(shot.parent)
+            if shot.guid in chain:
+                raise ValueError(f"Cyclic snapshot chain at {shot.guid}")
             chain.append(shot.guid)
 
         return chain
